@@ -134,7 +134,7 @@ int main(int argc, char** argv) {
         }
       });
     }
-    verif::Options opt; opt.seed = seed; opt.strategy = strategy; opt.max_steps = 3000000;
+    verif::Options opt; opt.seed = seed; opt.strategy = strategy; opt.max_steps = 400000;
     verif::Result r = verif::run(bodies, opt);
     // ---------------------------------------------------------------- monitors over the whole history
     bool mon_once = true, mon_order = true, mon_slot = true, mon_rt = true;
